@@ -30,8 +30,23 @@ def _cs(x):
 
 
 def _b(x):
-    """truth value; on a proxy this is a fork decided by the solver"""
-    return bool(x)
+    """truth value; on a proxy this is a fork decided by the solver.  A condition that was
+    already decided on this path (same z3 term) is answered from a per-path memo instead of
+    two more feasibility checks (the model code and the oracle ask the same questions as the
+    code under test asked before them)."""
+    if not isinstance(x, S.SymBool):
+        return bool(x)
+    ctx = S.cur()
+    memo = ctx.__dict__.setdefault("_c03_memo", {})
+    c = z3.simplify(x.z)
+    hit = memo.get(c.get_id())
+    if hit is not None:
+        return hit[1]
+    r = bool(S.SymBool(c))
+    memo[c.get_id()] = (c, r)          # the term is kept alive so that its id stays unique
+    n = z3.simplify(z3.Not(c))
+    memo[n.get_id()] = (n, not r)
+    return r
 
 
 def _digits_value(codes):
@@ -81,6 +96,15 @@ class _HeadingRe:
             return _REAL_HEADING_RE.match(s)
         c = s.c
         n = len(c)
+        cache = S.cur().__dict__.setdefault("_c03_match", {})
+        key = tuple(id(x) for x in c)
+        if key in cache:
+            return cache[key][1]
+        r = self._match(s, c, n)
+        cache[key] = (c, r)
+        return r
+
+    def _match(self, s, c, n):
         if n < 8:
             return None
         if not _b(s[:7].lower() == "heading"):
@@ -89,7 +113,7 @@ class _HeadingRe:
         while i < n and _b(c[i] == 32):
             i += 1
         j = i
-        while j < n and _b(S.CharStr._conj([_mk(c[j] >= 48), _mk(c[j] <= 57)])):
+        while j < n and _b(_is_digit(c[j])):
             j += 1
         if j == i:
             return None
@@ -103,6 +127,10 @@ class _HeadingRe:
             if _b(word):
                 return None
         return _HeadingMatch(S.CharStr(c[i:j]))
+
+
+def _is_digit(ch):
+    return S.CharStr._conj([_mk(ch >= 48), _mk(ch <= 57)])
 
 
 def _mk(x):
@@ -129,7 +157,7 @@ def _sym_int(x=0, *a):
     return S.sym_int(x, *a)
 
 
-def _docx_style_class(style):
+def _docx_style_class(style, trimmed=False):
     """My reading of WordprocessingML paragraph styles: the built-in heading styles are named
     'heading N' (UI: 'Heading N').  Whole-string reading, written independently of the regex:
       ('heading', N)   the trimmed name is 'heading', optional blanks, a decimal number - nothing else
@@ -137,11 +165,12 @@ def _docx_style_class(style):
       ('ambiguous',)   anything else ('Heading 1 Char', 'heading1x', 'Headings') - not judged"""
     if style is None:
         return ("body", None)
-    s = _cs(style).strip()
-    low = s.lower()
-    if not _b(low.startswith("heading")):
+    s = _cs(style)
+    if not trimmed:
+        s = s.strip()
+    if not _b(s[:7].lower() == "heading"):
         return ("body", None)
-    rest = low.c[7:]
+    rest = s.c[7:]
     k = 0
     while k < len(rest) and _b(rest[k] == 32):
         k += 1
@@ -149,9 +178,38 @@ def _docx_style_class(style):
     if not digits:
         return ("ambiguous", None)
     for d in digits:
-        if not (_b(d >= 48) and _b(d <= 57)):
+        if not _b(_is_digit(d)):
             return ("ambiguous", None)
     return ("heading", _digits_value(digits))
+
+
+def _assume_all(ctx, conds):
+    """one assume for a list of bool / SymBool / z3 conditions"""
+    zs = []
+    for c in conds:
+        if isinstance(c, S.SymBool):
+            zs.append(c.z)
+        elif z3.is_expr(c):
+            zs.append(c)
+        elif not c:
+            ctx.assume(False)
+    if zs:
+        ctx.assume(z3.And(*zs) if len(zs) > 1 else zs[0])
+
+
+def _unambiguous_style(ctx, style):
+    """precondition as one formula (no forks): the style name is certainly a heading style or
+    certainly not one under _docx_style_class (the later classification then follows the case
+    splits the code under test made itself).  In replay the classification itself rejects."""
+    if ctx.concrete or len(style.c) < 7:
+        return True
+    c = [S._as_int_term(x) for x in style.c]
+    low = [z3.If(z3.And(x >= 65, x <= 90), x + 32, x) for x in c[:7]]
+    is_h = z3.And(*[a == ord(b) for a, b in zip(low, "heading")])
+    rest = c[7:]
+    dig = [z3.And(x >= 48, x <= 57) for x in rest]
+    shapes = [z3.And(*([x == 32 for x in rest[:k]] + dig[k:])) for k in range(len(rest))]
+    return z3.Or(z3.Not(is_h), z3.And(is_h, z3.Or(*shapes)) if shapes else z3.BoolVal(False))
 
 
 def _text_from_kind(kind, tok):
@@ -233,11 +291,6 @@ def _section_oracle(ctx, items, units, allow_heading_like_in_body=False):
                         para=it["i"], section=sec["tok"], got=got)
         ctx.require(all(g in anc for g in got), "foreign-heading-in-heading-path",
                     para=it["i"], ancestors=anc, got=got)
-    for h in heads:
-        if h["tok"]:
-            ctx.require(any(h["tok"] in p for p in paths) or
-                        (allow_heading_like_in_body and any(h["tok"] in t for t in texts)),
-                        "heading-text-in-no-unit", para=h["i"], heading=h["tok"])
     # lost body text, most specific classes last (so that an unknown cause is reported first)
     classed = []
     for it in lost:
@@ -254,6 +307,12 @@ def _section_oracle(ctx, items, units, allow_heading_like_in_body=False):
             pbv = _b(it["pb"])
         ctx.require(False, "body-text-lost", cls=cls, para=it["i"], page_break=pbv)
 
+    # a heading whose section produced no unit and that no later unit names in its path
+    for h in heads:
+        if h["tok"]:
+            ctx.require(any(h["tok"] in p for p in paths) or
+                        (allow_heading_like_in_body and any(h["tok"] in t for t in texts)),
+                        "heading-text-in-no-unit", para=h["i"], heading=h["tok"])
 
 def k2_docx(ctx):
     dt = _dt()
@@ -261,20 +320,22 @@ def k2_docx(ctx):
     L = ctx.params.get("style_len", 9)
     nt = ctx.params.get("texts", 2)
     anchor = ctx.params.get("anchor", "none")
-    paras, raw = [], []
+    paras, raw, pre = [], [], []
     for i in range(n):
         style = None
         if ctx.flag(f"styled{i}"):
             style = ctx.fresh_chars(f"style{i}", L, 32, 126)
             if not ctx.params.get("style_ws"):
-                ctx.assume(style[0:1] != " ")
-                ctx.assume(style[L - 1:L] != " ")
+                pre.append(style[0:1] != " ")
+                pre.append(style[L - 1:L] != " ")
+                pre.append(_unambiguous_style(ctx, style))
         tk = ctx.choice(f"text{i}", nt)
         tok = f"p{i}q"
         text = _text_from_kind(tk, tok)
         pb = ctx.fresh_bool(f"pb{i}")
         paras.append(dt.DocxParagraph(text=text, style=style, has_page_break=pb))
         raw.append((style, tok if tk in (1, 3) else None, pb))
+    _assume_all(ctx, pre)
     tables, tanch, images = [], [], []
     if anchor != "none" and n:
         a = ctx.choice("anchor_para", n)
@@ -293,7 +354,7 @@ def k2_docx(ctx):
     # oracle (after the run, so that the case splits on the styles are the code's own)
     items = []
     for i, (style, tok, pb) in enumerate(raw):
-        cls, lev = _docx_style_class(style)
+        cls, lev = _docx_style_class(style, trimmed=not ctx.params.get("style_ws"))
         if cls == "ambiguous":
             ctx.assume(False)
         items.append({"i": i, "kind": cls, "level": lev, "tok": tok, "pb": pb})
@@ -369,6 +430,8 @@ def k2_doc(ctx):
         k = ctx.choice(f"line{i}", len(_DOC_LINES) if extra == "table" else len(_DOC_LINES) - 1)
         t = _DOC_LINES[k]
         t = t % ((i,) * t.count("%d")) if "%d" in t else t
+        if k == 6 and t in lines:
+            ctx.assume(False)          # heading texts are kept distinct (they serve as tokens)
         lines.append(t)
         if k in (2, 3):
             items.append({"i": i, "kind": "body", "level": None, "tok": f"b{i}q"})
@@ -391,18 +454,9 @@ def k2_doc(ctx):
     except Exception as e:
         units = None
         ctx.fail("iterate_units-raised", exc=type(e).__name__, msg=str(e)[:100], text=content.main_text)
-    # 'intro' can occur several times with the same text: make the heading tokens of the oracle
-    # positional by keeping only the first occurrence as a checked heading token
-    seen = set()
-    for it in items:
-        if it["kind"] == "heading":
-            if it["tok"] in seen:
-                it["tok"] = None
-            else:
-                seen.add(it["tok"])
-    heads_in_paths = any(u.get_metadata().heading_path for u in units)
-    if not heads_in_paths:
-        # the reading "no line is a heading" - everything is body text of one unit
+    # two readings are accepted for heading-like lines: all of them are body text (then some unit
+    # body shows one of them), or all of them are headings (the reading of DocContent's docstring)
+    if any(it["kind"] == "heading" and any(it["tok"] in u.get_text() for u in units) for it in items):
         for it in items:
             if it["kind"] == "heading":
                 it["kind"] = "body"
@@ -414,7 +468,8 @@ def k2_doc(ctx):
             tok = f"x{it['i']}"
             in_text = sum(u.get_text().count(tok) for u in units)
             in_tabs = sum(1 for u in units for t in u.get_tables() if t.get_table() == tables[0])
-            ctx.require(in_text + in_tabs == 1, "table-line-lost-or-duplicated", text=in_text, tables=in_tabs)
+            ctx.require(in_text <= 1 and in_tabs <= 1 and in_text + in_tabs >= 1,
+                        "table-line-lost-or-duplicated", text=in_text, tables=in_tabs)
 
 
 def _k2(ctx):
